@@ -40,7 +40,7 @@ ASSUMPTIONS = ["the look-back template T5 (delay of a constant) runs on the star
                "clause (iii) uses the closed-form template reference with relative tolerance 1e-9",
                "stream-steps comes last in a partition (it runs to the stop time)"]
 FAULT_KINDS = []
-PROBES = ["bystander_scenario_on_another_grid", "two_managers_different_runspecs", "earlier_session_not_ended", "decimal_dt", "fractional_start", "mixed_partition", "per_step_settings", "equation_subset_without_dependencies", "two_scenarios_different_runspecs",
+PROBES = ["stop_time_off_the_grid", "bystander_scenario_on_another_grid", "two_managers_different_runspecs", "earlier_session_not_ended", "decimal_dt", "fractional_start", "mixed_partition", "per_step_settings", "equation_subset_without_dependencies", "two_scenarios_different_runspecs",
           "stream_in_partition", "points_step_setting", "runspecs_in_session_settings", "flat_results_requested", "two_scenarios_in_one_session", "scenario_level_constants"]
 EXHAUSTIVE = {"quick": False, "thorough": False}
 
@@ -97,6 +97,16 @@ def generate(spec):
     dt = rng.choice(DTS) if template != "T5" else rng.choice([1.0, 0.5, 0.25, 0.2])      # (T5's look-back spans 1.0: a few steps)
     nsteps = rng.choice([4, 5, 7, 10, 15])           # grid points
     stop = float(T.grid(start, start + dt * (nsteps - 1) + dt / 2, dt)[-1])
+    off_grid = None
+    if rng.random() < 0.15:
+        # a stop time that is not a grid point: more decimals than start and dt (between two grid points), or a computed value
+        # a hair below the next grid point (3 * 0.3 = 0.8999999999999999): every channel ends at the last grid point <= stop
+        import math
+        off_grid = rng.choice(["between", "between", "hair_below_next"])
+        if off_grid == "between":
+            stop = float(T.dec(stop) + T.dec(dt) * T.dec(rng.choice([0.7, 0.3, 0.96])))
+        else:
+            stop = math.nextafter(float(T.dec(stop) + T.dec(dt)), -math.inf)
     els = T.ELEMENTS[template]
     r = rng.random()
     if r < 0.4:
@@ -114,7 +124,7 @@ def generate(spec):
             consts[c] = rng.choice([0.5, 1.5, 2.0, 3.0, 5.0])
     case = {"property": PROPERTY,
             "config": {"template": template, "start": start, "stop": stop, "dt": dt, "constants": consts},
-            "equations": eqs, "partition": gen_partition(rng, nsteps), "step_settings": {}, "second": None}
+            "equations": eqs, "partition": gen_partition(rng, nsteps), "step_settings": {}, "second": None, "off_grid_stop": off_grid}
     if rng.random() < 0.45:
         case["step_settings"] = gen_step_settings(rng, template, nsteps)
     if rng.random() < 0.3:
@@ -548,6 +558,8 @@ def execute(case):
     log.add("case", case)
     if cfg["dt"] in (0.1, 0.2, 0.05):
         res.probe("decimal_dt")
+    if case.get("off_grid_stop"):
+        res.probe("stop_time_off_the_grid")
     if cfg["start"] == 2.5:
         res.probe("fractional_start")
     if len({p["kind"] for p in case["partition"]}) > 1:
